@@ -311,6 +311,9 @@ func (fv *FnV) doInstr(st *State, ins ssa.Instruction) error {
 		}
 		fv.checkLent(ins.Addr, ins.Pos(), "write")
 		fv.guardedAccess(st, ins.Addr, ins.Pos(), "write")
+		if ia, ok := ins.Addr.(*ssa.IndexAddr); ok {
+			fv.sharedStorageWrite(st, ia.X, ins.Pos(), "an element store")
+		}
 		fv.storeAt(st, p, ins.Val.Type(), fv.term(fv.val(ins.Val)), ins.Pos())
 	case *ssa.MakeSlice:
 		et := ins.Type().Underlying().(*types.Slice).Elem()
@@ -370,6 +373,7 @@ func (fv *FnV) doInstr(st *State, ins ssa.Instruction) error {
 		e := t.tup[ins.Index]
 		fv.vals[ins] = &e
 	case *ssa.Slice:
+		fv.markSharedStorage(ins, ins.X)
 		return fv.doSlice(st, ins)
 	case *ssa.Lookup:
 		return fv.doLookup(st, ins)
@@ -504,6 +508,7 @@ func (fv *FnV) doUnOp(st *State, ins *ssa.UnOp) error {
 		}
 		fv.vals[ins] = fv.fromTerm(v, t)
 		fv.markGuarded(ins, ins.X)
+		fv.markSharedStorage(ins, ins.X)
 	case token.ARROW: // receive
 		fv.channelOp(st, "receive from "+fv.siteText(ins.Pos(), "receive"), ins.Pos())
 		if tup, ok := ins.Type().(*types.Tuple); ok {
